@@ -49,8 +49,8 @@ func modelProgram(c *model.Conv) *model.Reject {
 }
 
 func c03CheckProgram(s *vh.Session, c progCase) (string, bool) {
-	dir := s.Scratch()
-	if err := vh.WriteTree(dir, c.Conv.Prog.Files()); err != nil {
+	dir, err := s.PrepareModule(c.Conv.Prog)
+	if err != nil {
 		return "INFRA: " + err.Error(), false
 	}
 	loaded, err := vh.Load(vh.GenOpts{Dir: dir, Patterns: []string{"./conv"}})
